@@ -13,18 +13,26 @@ Print Assumptions C19_ident.
 
 (** A matcher's answers over ANY query sequence alternating the case rule are
     those of a fresh matcher for (pattern, path, rule): no dependence on earlier
-    queries. [validity_case_independent p] (prefixing "(?i)" does not change
-    whether the expression compiles) is established for the generated stream by
-    the correspondence runs against regexp.Compile; it is the one hypothesis. *)
-Theorem C19_stateless_partial :
+    queries. The one hypothesis is that parsing the pattern under the exact rule does
+    not exhaust the parser's fuel (3 x (length + 2) steps; [PFuel] is a distinct
+    outcome, never observed, counted out of model when it is): then prefixing
+    "(?i)" changes neither validity nor the modelled fragment
+    ([C19_validity_case_independent], by simulation of two parser runs that differ
+    in flags and spare fuel), so recompiling on a rule change never yields nil. *)
+Theorem C19_validity_case_independent :
+  forall p, parse_re UT (pattern_expr p true) <> PFuel -> validity_case_independent p.
+Proof. exact validity_is_case_independent. Qed.
+Print Assumptions C19_validity_case_independent.
+
+Theorem C19_stateless :
   forall p ex0 m qs,
-    new_pmatcher p ex0 = Some m -> validity_case_independent p ->
+    new_pmatcher p ex0 = Some m -> parse_re UT (pattern_expr p true) <> PFuel ->
     pm_answers m qs = List.map (fun q => pure_match p (fst q) (snd q)) qs.
 Proof.
   intros p ex0 m qs H V. destruct (new_pmatcher_inv _ _ _ H) as [Hi <-].
-  exact (pm_stateless m qs Hi V).
+  exact (pm_stateless m qs Hi (validity_is_case_independent _ V)).
 Qed.
-Print Assumptions C19_stateless_partial.
+Print Assumptions C19_stateless.
 
 (** What a fresh matcher answers: search of the parsed expression — "(?i)"
     prefixed when the rule is off, the expression otherwise untouched — in the
@@ -51,5 +59,6 @@ Example C19_examples :
   pure_match (s2b "/^\S+$/") (s2b "ab") false = MBool true /\
   pure_match (s2b "/\PL/") (s2b "ab") false = MBool false /\
   pure_match (s2b "User.Name") (s2b "UserXName") true = MBool false /\
-  validity_case_independent (s2b "/\pL/").
+  validity_case_independent (s2b "/\pL/") /\
+  parse_re UT (pattern_expr (s2b "/^(a|b)*\pL{2,3}[x-z]$/") true) <> PFuel.
 Proof. vm_compute. repeat split; intros; discriminate. Qed.
